@@ -192,6 +192,13 @@ func runC15(r *Run) {
 		cfg = algoCfg{Name: "vegas", Initial: 1 + t.Intn(60, "initial"), Smoothing: smoothings[t.Intn(len(smoothings), "smoothing")]}
 		cfg.Max = cfg.Initial + t.Intn(300, "max")
 		cfg.ProbeMult = 1 + t.Intn(60, "mult")
+		if t.Chance(15, "default-constructor") {
+			// NewDefaultVegasLimit / NewDefaultVegasLimitWithLimit: probe multiplier 30, maximum 1000, no smoothing
+			cfg.Ctor, cfg.ProbeMult, cfg.Max, cfg.Smoothing = "default-with-limit", 30, 1000, 1.0
+			if t.Chance(50, "full-default") {
+				cfg.Ctor, cfg.Initial = "default", 20
+			}
+		}
 	} else {
 		cfg = algoCfg{Name: "gradient", Initial: 4 + t.Intn(60, "initial"), Smoothing: smoothings[t.Intn(len(smoothings), "smoothing")], Tolerance: 2.0}
 		cfg.Min = 1 + t.Intn(4, "min")
@@ -419,7 +426,7 @@ func runC16(r *Run) {
 		}
 		desc := ""
 		if cfg.Name == "settable" && t.Chance(40, "set?") {
-			v := []int{1, 5, 0, 12, before, 100, 3}[t.Intn(7, "set-v")]
+			v := []int{1, 5, 0, 12, before, 100, 3, -1, -7}[t.Intn(9, "set-v")]
 			a.Inner.(*limit.SettableLimit).SetLimit(v)
 			desc = "SetLimit(" + itoa(v) + ")"
 		} else {
@@ -524,10 +531,38 @@ func runC16Concurrent(r *Run) {
 			}
 		})
 	}
+	// a listener registered WHILE samples are being reported: afterwards it is a listener like any other, and its
+	// registration must not disturb what the samples did to the estimate
+	lateLast, lateCalls, lateRegistered := 0, 0, false
+	if t.Chance(50, "concurrent-registration") {
+		s.Go("registrar", func(tk *Task) {
+			tk.Begin("NotifyOnChange", nil)
+			lim.NotifyOnChange(func(v int) {
+				lateLast = v
+				lateCalls++
+			})
+			lateRegistered = true
+			tk.End(nil)
+		})
+	}
 	r.Mixf("C16 concurrent kind=%d initial=%d listeners=%d plan=%s", kind, initial, nl, plan)
 	s.Run()
 	if s.Failed() != nil || s.Truncated || s.Leftover() > 0 {
 		return
+	}
+	if lateRegistered {
+		// one more, sequential, estimate-changing sample: every listener - the late one included - hears about it
+		before := lim.EstimatedLimit()
+		for k := 0; k < 6 && lim.EstimatedLimit() == before; k++ {
+			lim.OnSample(0, 1000, 4*before+10, k%2 == 1)
+		}
+		if after := lim.EstimatedLimit(); after != before {
+			r.Probe("late_listener_checked")
+			if lateCalls == 0 || lateLast != after {
+				r.Fail("listener-not-notified", fmt.Sprintf("concurrent/kind%d/late-registration", kind), "a listener was registered while samples were being reported from %d goroutines; a later sample moved the estimate from %d to %d but that listener was called %d time(s), last with %d", nTasks, before, after, lateCalls, lateLast)
+				return
+			}
+		}
 	}
 	est := lim.EstimatedLimit()
 	changed := false
